@@ -161,12 +161,44 @@ def locs_check(rng):
     return desc, None
 
 
+def direct_state_circuit(rng):
+    """Directed shape: state elements and gates wired DIRECTLY (no fork in between) to sources, to each other and in chains, nodes
+    created in a random order -- the traversals see sources that are already numbered / levelled when a latch or flip-flop is visited."""
+    from kyupy.circuit import Circuit, Node, Line
+    c = Circuit('direct')
+    plan = [('pi%d' % i, 'input') for i in range(rng.randint(1, 3))]
+    plan += [('la%d' % i, rng.choice(['LATCH', 'latchx1', 'DLATCH'])) for i in range(rng.randint(1, 3))]
+    plan += [('ff%d' % i, rng.choice(['DFF', 'sdffx1'])) for i in range(rng.randint(0, 2))]
+    plan += [('g%d' % i, rng.choice(['AND2', 'OR2', 'INV1', 'BUF1', 'XOR2'])) for i in range(rng.randint(0, 3))]
+    plan += [('po%d' % i, 'output') for i in range(rng.randint(1, 2))]
+    rng.shuffle(plan)
+    nodes = {nm: Node(c, nm, kd) for nm, kd in plan}
+    for nm, kd in plan:
+        if kd in ('input', 'output'):
+            c.io_nodes.append(nodes[nm])
+    drivers = [n for n in nodes.values() if n.kind != 'output']
+    for n in nodes.values():
+        if n.kind == 'input':
+            continue
+        npins = 2 if n.kind in ('AND2', 'OR2', 'XOR2') else 1
+        for p in range(npins):
+            cand = [d for d in drivers if d is not n and (d.kind == 'input' or 'latch' in d.kind.lower() or 'dff' in d.kind.lower()
+                                                             or (d.name.startswith('g') and n.name.startswith('g') and d.name < n.name)
+                                                             or (d.name.startswith('g') and not n.name.startswith('g')))]
+            if cand and rng.random() < 0.9:
+                d = rng.choice(cand)
+                # one output pin per driver may feed several readers only through a fork: use a fresh output pin each time
+                Line(c, (d, len(d.outs)) if d.kind != 'input' and 'dff' not in d.kind.lower() else d, (n, p)) if len(d.outs) == 0 else \
+                    Line(c, (d, len(d.outs)), (n, p))
+    return c, None
+
+
 def run(ck):
     ck.prove('C17', THEOREMS)
     rng = random.Random(ck.seed * 7919 + 17)
     fails, cases, meta = [], [], []
     for i in range(ck.scale(120, 3000)):
-        c, a = cg.gen_circuit(rng)
+        c, a = direct_state_circuit(rng) if i % 5 == 4 else cg.gen_circuit(rng)
         k = rng.randint(1, 3)
         origins = sorted(rng.sample(range(len(c.nodes)), min(k, len(c.nodes))))
         desc = {'circuit': cg.describe(c), 'origins': origins}
